@@ -264,8 +264,20 @@ func sidecarSites() []Site {
 	}
 }
 
+func storeSites() []Site {
+	return []Site{
+		{Name: "saveCalls", File: sct, Func: "TargetsManager.saveTargets", Ret: "calls:ioutil.,os.,json."},
+		{Name: "loadCalls", File: sct, Func: "TargetsManager.Load", Ret: "calls:ioutil.,os.,json.,path."},
+		{Name: "storeFileName", File: sct, Sel: "const:storeFileName", Ret: "text"},
+		{Name: "oldStoreFileName", File: sct, Sel: "const:oldVersionStoreFileName", Ret: "text"},
+		{Name: "tmpName", File: sct, Func: "TargetsManager.saveTargets", Sel: "assign:tmp:0", Ret: "text"},
+		{Name: "storePathExpr", File: sct, Func: "TargetsManager.storePath", Sel: "return:0", Ret: "text"},
+	}
+}
+
 func modules() []Module {
 	return []Module{
+		{Path: "Kvass/Gen/Store.lean", NS: "Kvass.Gen.Store", Imports: []string{"Kvass.Types"}, Global: map[string]string{}, Sites: storeSites()},
 		{Path: "Kvass/Gen/Sidecar.lean", NS: "Kvass.Gen.Sidecar", Imports: []string{"Kvass.Types"}, Global: map[string]string{}, Sites: sidecarSites()},
 		{Path: "Kvass/Gen/K8s.lean", NS: "Kvass.Gen.K8s", Imports: []string{"Kvass.Types"}, Global: map[string]string{}, Sites: k8sSites()},
 		{Path: "Kvass/Gen/Coord.lean", NS: "Kvass.Gen", Imports: []string{"Kvass.Types"}, Global: coordGlobal, Sites: coordSites()},
